@@ -104,21 +104,34 @@ func getMethodIndexEntity(index int) methodIndexEntity {
 	return methodIndexes[index]
 }
 
-// 添加一个处理函数
-func (n *node[T]) addMethods(h T, pattern string, ms []types.Middleware[T], methods ...string) error {
-	for i, m := range methods { // 先验证所有的 methods，保证出错时不会修改任何内容。
-		if m == http.MethodOptions || m == http.MethodHead || (n.root.hasTrace && m == http.MethodTrace) {
+// 验证 methods 是否都可以添加至 n
+//
+// n 可以为空，表示节点还未创建。需要在修改任何内容之前调用，保证出错时不会修改任何内容。
+func (tree *Tree[T]) checkMethods(n *node[T], methods []string) error {
+	for i, m := range methods {
+		if m == http.MethodOptions || m == http.MethodHead || (tree.hasTrace && m == http.MethodTrace) {
 			return fmt.Errorf("无法手动添加 OPTIONS/HEAD/TRACE 请求方法")
 		}
 		if _, found := methodIndexMap[m]; !found {
 			return fmt.Errorf("该请求方法 %s 不被支持", m)
 		}
 
-		if _, found := n.handlers[m]; found || slices.Contains(methods[:i], m) {
+		if slices.Contains(methods[:i], m) {
 			return fmt.Errorf("该请求方法 %s 已经存在", m)
 		}
+		if n != nil {
+			if _, found := n.handlers[m]; found {
+				return fmt.Errorf("该请求方法 %s 已经存在", m)
+			}
+		}
 	}
+	return nil
+}
 
+// 添加一个处理函数
+//
+// methods 必须已经由 [Tree.checkMethods] 验证。
+func (n *node[T]) addMethods(h T, pattern string, ms []types.Middleware[T], methods ...string) {
 	for _, m := range methods {
 		if m == http.MethodGet {
 			n.handlers[http.MethodHead] = ApplyMiddleware(h, http.MethodHead, pattern, n.root.Name(), ms...)
@@ -138,8 +151,6 @@ func (n *node[T]) addMethods(h T, pattern string, ms []types.Middleware[T], meth
 
 	n.buildMethods()
 	n.root.buildMethods(1, methods...)
-
-	return nil
 }
 
 // 根据当前所有的节点重新统计 tree.methods
